@@ -2,6 +2,7 @@ import Pfst.JsonUtil
 import Pfst.Quote
 import Pfst.Indentable
 import Pfst.PutBack
+import Pfst.SharedDelims
 /-! Driver package for C08: strings travel as lists of code points (no JSON escaping questions); the per-character
 classification is a table `[[codepoint, isprintable, repr_raw, isspace], ...]` computed by the harness with CPython. -/
 namespace Pfst.Drv.C08
@@ -101,6 +102,9 @@ def dispatch (f : String) (j : Json) : Option Json :=
                            ("indent", Json.arr ((indentBlock ind m strs lo lines).map ofChars).toArray),
                            ("dedent", Json.arr ((dedentBlock ind m strs lo lines).map ofChars).toArray)]
       | none => return Json.mkObj [("lns", Json.arr lns.toArray)]
+  | "C08.fixwith" => some <| Id.run do
+      let some k := getStr j "kind" | return Json.mkObj [("err", "bad kind")]
+      return Json.bool (Pfst.SharedDelims.fixWithItems k)
   | "C08.elif" => some <| Id.run do
       -- batch of [hasPre, hasPost, isOrelse, tgtIsIf, optElif, oldIsElif, putLen, putFirstIsIf] → 0 keep / 1 toElif / 2 toElse
       let some a := getArr j "items" | return Json.mkObj [("err", "bad items")]
